@@ -17,7 +17,7 @@ func init() {
 		},
 		Covers: []string{"c15/put64/ok", "c15/put64/short", "c15/get64/ok", "c15/get64/short",
 			"c15/put32/ok", "c15/put32/short", "c15/get32/ok", "c15/get32/short"},
-		Bounds: "buffer length 0..16 (quick) / 0..24 (thorough), forked; all 2^64 / 2^32 values and all buffer contents symbolic; " +
+		Bounds: "buffer length 0..25 (quick) / 0..48 (thorough), forked; all 2^64 / 2^32 values and all buffer contents symbolic; " +
 			"outside: longer buffers (no length-dependent code beyond the bounds check of encoding/binary)",
 		Assumptions: []string{
 			"go/ssa (x/tools v0.29.0) is the semantics of Go; encoding/binary is executed from its real SSA",
